@@ -312,6 +312,21 @@ def c08(tier, replay):
     for p in [x for x in live if True][: (10 if q else 60)]:
         sessions.append([{"do": "send", "line": p}, {"do": "go", "line": "go wtime 220 btime 220 movestogo 1"}, {"do": "go", "line": "go wtime 130 btime 130 movestogo 1"},
                          {"do": "isready"}])
+    # direction spec -> code: every finished game of K+Q / K+R against K (both colours), enumerated by TLC from Chess.tla
+    smp = 20 if q else 1
+    r = vcommon.tlc("Fam", "Fam_terminal.cfg", env={"FAMILY": "terminal", "SAMPLE": str(smp), "OFFSET": str(vcommon.seed() % smp)},
+                    workers=vcommon.NCPU, xmx="8g", timeout=3000)
+    if not r["ok"]:
+        raise ToolError("terminal family enumeration failed:\n" + r["out"][-1500:])
+    terms = vcommon.tlc_prints(r["out"], "TERM")
+    if len(terms) < 50:
+        raise ToolError("coverage hole: terminal family too small (%d)" % len(terms))
+    run.add("states", r["distinct"])
+    run.add("transitions", r["states"])
+    run.cov["terminal_family_from_spec"] = {"finished_games": len(terms), "checkmates": sum(1 for t_ in terms if t_[2]), "sample": "1/%d" % smp,
+                                            "exhaustive": smp == 1, "placements_enumerated": r["distinct"]}
+    for t_ in terms:
+        sessions.append([{"do": "send", "line": "position fen " + t_[1]}, {"do": "go", "line": rng.choice(clocks)}, {"do": "isready"}])
     plan(h, sessions)
     logs = run_sessions(binary, sessions, 4)
     sample_session(run, sessions[0], logs[0])
